@@ -175,6 +175,11 @@ def make_bundle(rng, root: str, n_services: int, pyname, *, with_nopkg: bool, co
         text = 'syntax = "proto3";\n' + (f"package {pkg};\n" if pkg else "")
         text += "".join(f'import "{i}";\n' for i in sorted(imports))
         text += LOCAL_MESSAGES
+        # the well-known types this file's RPCs take or return are ALSO used as message fields of the same package (where the plugin
+        # unwraps them to datetime / timedelta / Optional[...]): the RPC types must still be the message classes (seeded C11-10)
+        wk = sorted({t for m in methods for t in (m.in_t, m.out_t) if t in GOOGLE})
+        if wk:
+            text += "message WkHolder { " + " ".join(f"{t[1:]} w{j} = {j + 1};" for j, t in enumerate(wk)) + " }\n"
         text += f"service {sname} {{\n"
         for m in methods:
             text += (f"  rpc {m.name} ({'stream ' if m.cs else ''}{m.in_t}) "
